@@ -49,7 +49,11 @@ def case(draw, tier):
          "lazy": draw(st.booleans()),
          # fieldmap: an output field is added to the caller's mappings object after the view was first used
          "late_mapping": draw(st.integers(0, 3)) == 0,
-         "plain_fn": draw(st.booleans())}
+         "plain_fn": draw(st.booleans()),
+         # convert: rows left out by where= (their cells may well be ones the converter fails on)
+         "skip_rows": sorted(draw(st.lists(st.integers(0, max(0, n - 1)), max_size=2, unique=True))) if (n and draw(st.integers(0, 2)) == 0) else [],
+         # fieldmap: data rows cut short (row index -> remaining length >= 1)
+         "short": dict((str(draw(st.integers(0, n - 1))), draw(st.integers(1, nf))) for _ in range(draw(st.integers(0, 2)))) if n else {}}
     cells = [(r, f) for r in range(n) for f in range(nf)]
     if op == "convert-chain" and nf < 2:
         op = c["op"] = "convert-multi"
@@ -113,6 +117,9 @@ def check(case, ctx):
             failing = set(t for t in failing if int(t.split("c")[1]) in fields)
             ctx.nontrivial(0 < len(failing) < n * len(fields))
 
+            skip_rows = set(case.get("skip_rows") or []) if op in ("convert", "convert-multi") else set()
+            short = dict((int(k), v) for k, v in (case.get("short") or {}).items()) if op == "fieldmap" else {}
+
             def conv(v):
                 if v in failing:
                     raise cls(v)
@@ -128,11 +135,22 @@ def check(case, ctx):
                 view = etl.convert(inner, hdr[fields[1]], conv, errorvalue=errorvalue, **kw)
             elif op in ("convert", "convert-multi"):
                 spec = hdr[fields[0]] if op == "convert" else dict((hdr[f], conv) for f in fields)
-                view = etl.convert(tbl, spec, conv, errorvalue=errorvalue, **kw) if op == "convert" else etl.convert(tbl, spec, errorvalue=errorvalue, **kw)
+                wkw = dict(kw)
+                if skip_rows:
+                    # where=: the converter is only ever applied to the selected rows - a value it would choke on in a row
+                    # that is not selected is none of its business, under any policy
+                    wkw["where"] = lambda rec: int(rec[0][1:].split("c")[0]) not in skip_rows
+                    ctx.label("where")
+                view = etl.convert(tbl, spec, conv, errorvalue=errorvalue, **wkw) if op == "convert" else etl.convert(tbl, spec, errorvalue=errorvalue, **wkw)
             elif op == "convertall":
                 view = etl.convertall(tbl, conv, errorvalue=errorvalue, **kw)
             else:
                 m = collections.OrderedDict((hdr[f], (hdr[f], conv)) for f in fields)
+                if short and not carried:
+                    tbl = [tbl[0]] + [row[:short[i]] if i in short else row for i, row in enumerate(tbl[1:])]
+                    ctx.label("short-rows")
+                elif short:
+                    short = {}
                 if carried:
                     m["carried"] = "xc"
                     tbl = [hdr + ["xc"]] + [row + [carried.get(i, "plain")] for i, row in enumerate(tbl[1:])]
@@ -155,6 +173,12 @@ def check(case, ctx):
                 stop = None
                 for f in outfields:
                     t = _tok(r, f)
+                    if r in skip_rows:
+                        cells.append(("VAL", t))
+                        continue
+                    if r in short and f >= short[r]:
+                        cells.append(("VAL", ("ok", None)))   # the mapping function is handed None for the absent cell
+                        continue
                     if f in fields and t in failing:
                         if policy is True:
                             stop = t
